@@ -101,8 +101,12 @@ func runStore(c storeCase) storeObs {
 			case "plain":
 				st.Obs.Res, st.Obs.Intact = expandRes(env, ast.Word{&ast.ParamExp{Braces: len(op.N) > 1, Name: &ast.Lit{Value: op.N}}})
 			case ":=", "=", ":?", "?", "%", "%%", "#", "##":
-				st.Obs.Res, st.Obs.Intact = expandRes(env, ast.Word{&ast.ParamExp{Braces: true, Name: &ast.Lit{Value: op.N}, Op: op.Op,
-					Word: ast.Word{&ast.Lit{Value: op.V}}}})
+				word := ast.Word{&ast.Lit{Value: op.V}}
+				if op.V == "<fail>" {
+					// a word whose own expansion fails
+					word = ast.Word{&ast.ParamExp{Braces: true, Name: &ast.Lit{Value: "nosuch"}, Op: "?", Word: ast.Word{&ast.Lit{Value: "m"}}}}
+				}
+				st.Obs.Res, st.Obs.Intact = expandRes(env, ast.Word{&ast.ParamExp{Braces: true, Name: &ast.Lit{Value: op.N}, Op: op.Op, Word: word}})
 			default:
 				var expr string
 				switch op.Op {
